@@ -17,7 +17,10 @@
 (* a silent environment step that has happened by the time of a sync (the   *)
 (* kernel took the bytes), how the queue is cut into Writes is invisible    *)
 (* (SPop takes all of it), and what a client has read so far is only a      *)
-(* prefix of what was written unless it has read up to a clean EOF.         *)
+(* prefix of what was written unless it has read up to a clean EOF (or, a   *)
+(* pure reader, up to the end of the stream).  Elements of a stream are     *)
+(* bytes, or whole blocks in bulk transfers (the client checks each block's *)
+(* content and reports its number; tail = bytes of an incomplete block).    *)
 EXTENDS Session, Json, IOUtils
 
 TraceLog == ndJsonDeserialize(IOEnv.VERIF_TRACE)
@@ -52,7 +55,12 @@ FreeObsOK(o) ==
   /\ \A i \in 1..Len(o.ss) : LET c == ss[i]  x == o.ss[i] IN
        /\ x.st = c.st
        /\ x.exits = c.exits
-       /\ IF x.eof THEN x.got = c.peer /\ ~c.copen      \* read everything up to a clean EOF
+       \* The client has everything when it read up to a clean EOF - or up to the end of
+       \* the stream however it ended if it is a pure reader (it never sent or closed, so
+       \* nothing but the server's own close can have ended the stream, and nothing unread
+       \* on the server side can have turned that close into a reset).
+       /\ IF x.eof \/ (x.gone /\ x.pure)
+          THEN x.got = c.peer /\ x.tail = 0 /\ ~c.copen
           ELSE IsPrefix(x.got, c.peer)
        /\ x.gone => ~c.copen                            \* the client saw the connection end
 
